@@ -32,6 +32,7 @@ func init() {
 		"go.overflow":    goOverflow,
 		"go.underflow":   goUnderflow,
 		"go.fifthex":     goFiftHex,
+		"go.fiftreject":  goFiftReject,
 		"go.parsedwrite": goParsedWrite,
 		"go.refs":        goRefs,
 		"go.writeint":    goWriteInt,
@@ -652,6 +653,30 @@ func goFiftHex(a []string) string {
 	}
 	if bitsOfBs(bs) != bin {
 		return fail("fift-mutates", "receiver changed")
+	}
+	return "ok"
+}
+
+// go.fiftreject <hex of the UTF-8 bytes of a text>: a text containing a byte that is neither a hex digit nor part of a
+// valid "<digit>_" completion suffix is not the Fift-hex form of any bit string and must be rejected.
+func goFiftReject(a []string) string {
+	txt := string(h.MustUnHex(a[0]))
+	body := txt
+	if strings.HasSuffix(body, "_") && len(body) >= 2 {
+		body = body[:len(body)-2]
+	}
+	bad := false
+	for i := 0; i < len(body); i++ {
+		c := body[i]
+		if !(c >= '0' && c <= '9' || c >= 'a' && c <= 'f' || c >= 'A' && c <= 'F') {
+			bad = true
+		}
+	}
+	if !bad {
+		return "ok" // nothing to reject in this input
+	}
+	if bs, err := boc.BitStringFromFiftHex(txt); err == nil {
+		return fail("fift-accepts", "%q accepted as %s", txt, bs.ToFiftHex())
 	}
 	return "ok"
 }
@@ -1313,6 +1338,20 @@ func genC06(g *h.G) {
 		}
 		g.Emit("bs.fromfift", s)
 		g.Count("fift_malformed_stream")
+	}
+	for i := 0; i < g.Scale(300, 3000); i++ {
+		// a valid text with one character replaced by a non-ASCII rune; half of them have a hex digit as low byte
+		t := []rune(fiftOf(randBits(g, 4+g.Rng.Intn(60))))
+		var r rune
+		if g.Rng.Intn(2) == 0 {
+			lows := "0123456789abcdefABCDEF"
+			r = rune(0x100*(1+g.Rng.Intn(0x20))) + rune(lows[g.Rng.Intn(len(lows))])
+		} else {
+			r = rune(0x80 + g.Rng.Intn(0x2000))
+		}
+		t[g.Rng.Intn(len(t))] = r
+		g.Emit("go.fiftreject", h.Hex([]byte(string(t))))
+		g.Count("fift_non_ascii")
 	}
 	// (e) direct oracles ---------------------------------------------------------------------------------------------
 	nWr := g.Scale(4000, 80000)
